@@ -83,10 +83,10 @@ const (
 
 // invocation target kinds
 const (
-	C16TgtNode    = iota // a frame node: a section of a host's code (call kinds) or init code (create kinds)
-	C16TgtPlain          // a literal address called without calldata
-	C16TgtCreated        // the address returned by the Ref'th create of the same frame (kept in memory)
-	C16TgtCreate2Of      // the CREATE2 address of frame Of (created by Creator), called without calldata
+	C16TgtNode      = iota // a frame node: a section of a host's code (call kinds) or init code (create kinds)
+	C16TgtPlain            // a literal address called without calldata
+	C16TgtCreated          // the address returned by the Ref'th create of the same frame (kept in memory)
+	C16TgtCreate2Of        // the CREATE2 address of frame Of (created by Creator), called without calldata
 )
 
 type C16Inv struct {
